@@ -162,7 +162,7 @@ def check_instance(ctx, inst, props=('C03',), helper_kind='h1'):
         pr.out['outside_premise'] = pr.out.get('outside_premise', 0) + 1; return cands
     if not conts and k != 'tail_call':
         pr.out['errors'].append(f'{name} [{tag}]: interpreter has no continuing path (vacuous)'); return cands
-    a_sym = BitVec('a_any', 64)
+    a_sym = BitVec('a_any', 64); vdone = []
     for ip_ in conts:
         Q = ctx.I.post(ip_); icond = list(ip_.st.pc)
         qpc = simplify(Q.pc)
@@ -197,6 +197,8 @@ def check_instance(ctx, inst, props=('C03',), helper_kind='h1'):
                 if j in skip: continue
                 rr, m = pr.prove(f'{name}:r{j} [{tag}]', both, xs_.r[EBPF_MAP[j]] == Q.regs[j], sample=f'{name} [{tag}]: x86 {EBPF_MAP[j]}\' = interpreter r{j}\' for all register and memory contents' if j == d else None)
                 if rr == 'sat': cand('reg-value', f'r{j} ({EBPF_MAP[j]}) differs from the interpreter', m, dict(got=xs_.r[EBPF_MAP[j]], want=Q.regs[j], reg=BitVecVal(j, 8)))
+            if k in ('alu', 'endian', 'lddw') and not vdone and d != 10 and not (info.get('x') and s == 10):      # r10 holds a native address: not reproducible
+                vdone.append(1); validate_instance(ctx, inst, both, P, X0, Q.regs[d], xs_.r[EBPF_MAP[d]], d, name, tag)
             for rg, what in (('rsp', 'native stack pointer'), ('r10', 'packet pointer register'), ('r12', 'callee-saved r12')):
                 rr, m = pr.prove(f'{name}:{rg}-preserved [{tag}]', both, xs_.r[rg] == X0[rg])
                 if rr == 'sat': cand(f'{rg}-not-preserved', f'{what} changed by the generated code', m)
@@ -228,6 +230,28 @@ def check_instance(ctx, inst, props=('C03',), helper_kind='h1'):
             if rr == 'sat': cand('missing-path', 'no generated-code path is compatible with the interpreter path', m)
     pr.out['programs'] += 1
     return cands
+
+
+def validate_instance(ctx, inst, both, P, X0, t_interp, t_x86, d, name, tag):
+    """encoder validation (never a deciding step): one satisfying pre-state is taken from the solver, the value both models predict for the
+    destination register is read off, and a program that sets up that pre-state, runs the instruction and returns the register is run natively
+    under the interpreter and the JIT; a native value different from the prediction means mirsym/x86sym or a semantics table is wrong (exit 2)"""
+    import replaylib
+    pr = ctx.pr; v = pr.out.setdefault('validation', dict(instances=0, agree=0, skipped=0))
+    r, m = pr.check(both, [])
+    if r != 'sat': v['skipped'] += 1; return
+    md = icheck.model_dict(m, P, dict(reg=BitVecVal(d, 8)))
+    md = dict(md); md['pc'] = max(md.get('pc', 0), 40); md['prog_len'] = 8 * (md['pc'] + 8); md['sfi'] = 0
+    md.update(mem_base=1 << 62, mbuff_base=(1 << 62) + (1 << 40), stack_base=(1 << 62) + (2 << 40), ranges=[], mem_len=16, mbuff_len=16, mem_bytes=[0] * 16, mbuff_bytes=[0] * 16)
+    try: b, why = replaylib.build_interp_program(md, observe_reg=d, land=None)
+    except Exception as e: b, why = None, str(e)
+    if b is None: v['skipped'] += 1; return
+    want = dict(interp=mval(m, t_interp), jit=mval(m, t_x86)); v['instances'] += 1; ok = True
+    for eng in ('interp', 'jit'):
+        nat = ctx.drv.run(b['prog'], vm='mbuff', mem=b['mem'], mbuff=b['mbuff'], extra=b['extra'], engine=eng, helpers=[], allowed=b['allowed'], patch=b['patch'])
+        if nat.get('status') != 'ok' or nat.get('value') != want[eng]:
+            ok = False; pr.out['errors'].append(f'encoder validation: {name} [{tag}] under {eng}: the model predicts r{d} = {want[eng]:#x}, the real build gives {nat.get("status")} {nat.get("value")}')
+    if ok: v['agree'] += 1
 
 
 def worker(args):
